@@ -1113,7 +1113,8 @@ class Evaluator:
         else:
             term = ("call", fterm, tuple(args), tuple(kws), self._new_occ())
         ev = self._emit(st, "call", e, term=term, fterm=fterm, recv=recv, args=tuple(args), kwargs=tuple(kws),
-                        site=site, pure=pure, name=short, fname=fname, noise=noise)
+                        site=site, pure=pure, name=short, fname=fname, noise=noise,
+                        ver_snapshot=(dict(st.attr_ver) if site.how == "ctor" else None))
         # heap effects of the call
         if mods:
             self._bump(st, mods)
